@@ -334,6 +334,15 @@ func (p *queryPlan) processClause(ctx context.Context, cls *semantic.GraphClause
 		if err != nil {
 			return false, err
 		}
+		if ta, err := cls.P.TimeAnchor(); err == nil {
+			// The global time bounds also apply to fully specified temporal triples.
+			if (lo.LowerAnchor != nil && ta.Before(*lo.LowerAnchor)) || (lo.UpperAnchor != nil && ta.After(*lo.UpperAnchor)) {
+				if tbl, err = table.New(cls.Bindings()); err != nil {
+					return false, err
+				}
+				b = true
+			}
+		}
 		if len(p.tbl.Bindings()) == 0 {
 			if err := p.tbl.AppendTable(tbl); err != nil {
 				return b, err
